@@ -17,11 +17,17 @@ import (
 
 var cfgOnce sync.Once
 
+// app construction touches the global sdk.Config (app.NewTestApp calls SetSDKConfig each time), so it
+// is serialised; the apps themselves are independent afterwards.
+var newAppMu sync.Mutex
+
 // GenTime is the genesis / first block time of every harness app.
 var GenTime = time.Date(2024, 1, 1, 0, 0, 0, 0, time.UTC)
 
 // NewApp builds the repository's own test app from genesis states and returns a deliver-mode context.
 func NewApp(genesis ...app.GenesisState) (app.TestApp, sdk.Context) {
+	newAppMu.Lock()
+	defer newAppMu.Unlock()
 	cfgOnce.Do(func() { app.SetSDKConfig() })
 	tApp := app.NewTestApp()
 	tApp.InitializeFromGenesisStatesWithTime(GenTime, genesis...)
